@@ -302,6 +302,55 @@ func run(c *mon.Ctx) {
 		}
 		c.Class(fmt.Sprintf("long-prefix/%d", off))
 	})
+	// re-synchronising: Sync, consume some bytes, Sync again on the same reader (nothing carries over)
+	c.Stream("resync", c.N(6000, 3000000), func(i int, r *gen.Rand) {
+		n := 20 + r.Intn(500)
+		s := make([]byte, n)
+		for k := range s {
+			s[k] = sym[r.Intn(len(sym))]
+		}
+		for k := r.Intn(3); k > 0; k-- {
+			p := packet.Create(16+r.Intn(8000), packet.WithHasPayloadFlag)
+			at := r.Intn(len(s) + 1)
+			s = append(s[:at], append(p[:], s[at:]...)...)
+		}
+		var br *bufio.Reader
+		if r.Bool() {
+			br = bufio.NewReaderSize(&chunked{bytes.NewReader(s), r}, r.PickInt([]int{16, 64, 188, 200, 4096}))
+		} else {
+			br = bufio.NewReaderSize(bytes.NewReader(s), r.PickInt([]int{16, 64, 188, 200, 4096}))
+		}
+		pos := 0
+		for round := 0; round < 6; round++ {
+			want := refSync(s[pos:])
+			off, err := packet.Sync(br)
+			c.Eval(1)
+			if want < 0 {
+				if err != gots.ErrSyncByteNotFound {
+					c.Fail("resync:not-found-error", fmt.Sprintf("round %d from position %d: no plausible header left but Sync returned %d, %v", round, pos, off, err), wit{mon.Hex(s), "bufio, repeated", fmt.Sprintf("off=%d err=%v", off, err), "ErrSyncByteNotFound"})
+				}
+				break
+			}
+			if err != nil || off != int64(want) {
+				c.Fail("resync:offset", fmt.Sprintf("round %d from position %d: Sync returned %d, %v; the first plausible header is %d bytes on", round, pos, off, err, want), wit{mon.Hex(s), "bufio, repeated", fmt.Sprintf("off=%d err=%v", off, err), fmt.Sprint("offset ", want)})
+				break
+			}
+			pos += want
+			// consume 1..200 bytes and check they are the stream's
+			k := 1 + r.Intn(200)
+			if pos+k > len(s) {
+				k = len(s) - pos
+			}
+			buf := make([]byte, k)
+			if _, e := io.ReadFull(br, buf); e != nil || !bytes.Equal(buf, s[pos:pos+k]) {
+				c.Fail("resync:reader-position", fmt.Sprintf("round %d: after Sync the reader does not continue at byte %d of the stream", round, pos), wit{mon.Hex(s), "bufio, repeated", "", ""})
+				break
+			}
+			pos += k
+			c.Count("resync.rounds")
+		}
+		c.Class(fmt.Sprintf("resync/len=%d", len(s)/200))
+	})
 	// whole packets after garbage: the case real callers have
 	c.Stream("packets-after-garbage", c.N(3000, 3000000), func(i int, r *gen.Rand) {
 		g := r.Intn(400)
